@@ -104,13 +104,18 @@ template <class Cfg> struct Runner
             if (conv) { for (int i = 0; i < ks; ++i) et[i] = taps[ks - 1 - i]; ecc = ks - 1 - cc; }
             const int L = ecc, R = ks - 1 - ecc;
             double sumabs = 0; for (double t : et) sumabs += std::fabs(t);
-            for (int oi = 0; oi < 5 && fails_here < 64; ++oi)
+            for (int oi2 = 0; oi2 < 10 && fails_here < 64; ++oi2)
             {
+                const int oi = oi2 % 5;
+                // second pass (the four options without declared padding): the source view is a window of a larger canvas, so its rows
+                // are not contiguous and unrelated pixels lie around it; they must never be read (the expectation never uses them)
+                const bool window = oi2 >= 5;
                 const boundary_option opt = ALL_OPTS[oi];
                 const bool padded = opt == boundary_option::extend_padded;
+                if (window && padded) continue;
                 // declared padding: exactly L samples before and R after along the axis, nothing else
-                const int ox = (padded && axis == 0) ? L : 0, oy = (padded && axis == 1) ? L : 0;
-                const int FW = w + ((padded && axis == 0) ? L + R : 0), FH = h + ((padded && axis == 1) ? L + R : 0);
+                const int ox = window ? 2 : ((padded && axis == 0) ? L : 0), oy = window ? 1 : ((padded && axis == 1) ? L : 0);
+                const int FW = window ? w + 3 : w + ((padded && axis == 0) ? L + R : 0), FH = window ? h + 2 : h + ((padded && axis == 1) ? L + R : 0);
                 SrcStore<Cfg, Cfg::planar_src> store(FW, FH);
                 Buf<typename Cfg::dst_px> dst(w, h);
                 std::vector<double> F(size_t(FW) * FH * NC);     // shadow of the stored source values
@@ -139,6 +144,7 @@ template <class Cfg> struct Runner
                     // ---- the real code
                     call(std::integral_constant<bool, Fixed>(), fn, sv, ker, dvx, opt);
                     if (alias) ++ctx.witness["in_place_calls"];
+                    if (window) ++ctx.witness["source_window_of_larger_canvas"];
                     ++ctx.evaluations;
                     const bool nontriv = w > 0 && h > 0 && ks > 1;
                     if (nontriv) ++ctx.nontrivial;
@@ -187,7 +193,7 @@ template <class Cfg> struct Runner
                             }
                         }
                     std::string id;
-                    auto mkid = [&]() { if (id.empty()) id = vh::S() << ubase << "/" << FN_NAME[fn] << "/" << opt_name(opt) << "/" << ct.name() << (alias ? "/in-place" : ""); return id; };
+                    auto mkid = [&]() { if (id.empty()) id = vh::S() << ubase << "/" << FN_NAME[fn] << "/" << opt_name(opt) << "/" << ct.name() << (alias ? "/in-place" : "") << (window ? "/src-window" : ""); return id; };
                     if (bad)
                     {
                         ++fails_here;
